@@ -53,7 +53,7 @@ def cases(tier, seed):
             out.append(('unary', st, un))
         out.append(('factories', st))
         out.append(('construct', st))
-    out += [('dot', 'real'), ('dot', 'complex'), ('dot', 'stokes'), ('helpers',), ('reject',)]
+    out += [('dot', 'real'), ('dot', 'complex'), ('dot', 'cxr'), ('dot', 'rxc'), ('dot', 'stokes'), ('helpers',), ('reject',)]
     out += [('cmatmul', st) for st in KINDS]
     return out
 
@@ -229,16 +229,17 @@ def _dot(key, twin):
     ctx.field = Field.get(4)
     st = {'a': S(2), 'b': S(2)}
     def f(xr, xi, yr, yi):
-        x = jax.tree.map(lambda r, i: jax.lax.complex(r, i), xr, xi)
-        y = jax.tree.map(lambda r, i: jax.lax.complex(r, i), yr, yi)
+        # modes 'cxr' / 'rxc': one operand has REAL leaves (mixed pairs: the conjugate still falls on the first argument)
+        x = xr if mode == 'rxc' else jax.tree.map(lambda r, i: jax.lax.complex(r, i), xr, xi)
+        y = yr if mode == 'cxr' else jax.tree.map(lambda r, i: jax.lax.complex(r, i), yr, yi)
         return ft.dot(x, y)
     got, gs, _ = E.run(ctx, f, [('xr', st, 'sym'), ('xi', st, 'sym'), ('yr', st, 'sym'), ('yi', st, 'sym')])
     F = ctx.field
     xr, xi, yr, yi = (E.flat_elems(E.symbols(n, st)) for n in ('xr', 'xi', 'yr', 'yi'))
     acc = Cyc.of(F, 0)
     for a, b, c, d in zip(xr, xi, yr, yi):
-        x = Cyc.of(F, a) + F.I * b
-        y = Cyc.of(F, c) + F.I * d
+        x = Cyc.of(F, a) if mode == 'rxc' else Cyc.of(F, a) + F.I * b
+        y = Cyc.of(F, c) if mode == 'cxr' else Cyc.of(F, c) + F.I * d
         acc = acc + ((y.conj() * x) if twin else (x.conj() * y))
     g = E.flat_elems(got, ctx)[0]
     res = [('Hermitian dot conjugates the first argument', dec.decide(ctx, [(g, acc)]))]
@@ -507,12 +508,12 @@ def replay(key, model, info):
         viad = complex(ft.dot(x, y))
         bad = abs(got - want) > 1e-9 * max(1, abs(want)) or (not twin and abs(got - viad) > 1e-9 * max(1, abs(viad)))
         return bad, f'x @ y = {got}, sum conj(x_k) y_k = {want}, tree.dot(x, y) = {viad}'
-    if key[0] == 'dot' and key[1] == 'complex':
+    if key[0] == 'dot' and key[1] in ('complex', 'cxr', 'rxc'):
         from furax import tree as ft
         st = {'a': S(2), 'b': S(2)}
         xr, xi, yr, yi = (model_tree(model, n, st) for n in ('xr', 'xi', 'yr', 'yi'))
-        x = jax.tree.map(lambda r, i: r + 1j * i, xr, xi)
-        y = jax.tree.map(lambda r, i: r + 1j * i, yr, yi)
+        x = xr if key[1] == 'rxc' else jax.tree.map(lambda r, i: r + 1j * i, xr, xi)
+        y = yr if key[1] == 'cxr' else jax.tree.map(lambda r, i: r + 1j * i, yr, yi)
         got = complex(ft.dot(x, y))
         want = sum(complex(jnp.sum((jnp.conj(b) * a) if twin else (jnp.conj(a) * b))) for a, b in zip(jax.tree.leaves(x), jax.tree.leaves(y)))
         return abs(got - want) > 1e-9 * max(1, abs(want)), f'dot={got} expected {want}'
